@@ -7,6 +7,7 @@ import (
 	"time"
 
 	"github.com/skx/evalfilter/v2/lexer"
+	"github.com/skx/evalfilter/v2/parser"
 	"github.com/skx/evalfilter/v2/token"
 )
 
@@ -15,6 +16,8 @@ func runCase(c kv, w *bufio.Writer) {
 	switch c["kind"] {
 	case "lex":
 		lexCase(c, w)
+	case "parse":
+		parseCase(c, w)
 	default:
 		fmt.Fprintf(w, "id=%s\tunsupported=%s\n", c["id"], c["kind"])
 	}
@@ -47,4 +50,43 @@ func lexCase(c kv, w *bufio.Writer) {
 	case <-time.After(10 * time.Second):
 		fmt.Fprintf(w, "id=%s\ttokens=TIMEOUT\n", c["id"])
 	}
+}
+
+// withTimeout runs f in a goroutine; reports false if it did not finish.
+func withTimeout(d time.Duration, f func()) (finished bool, panicked interface{}) {
+	done := make(chan interface{}, 1)
+	go func() {
+		defer func() { done <- recover() }()
+		f()
+	}()
+	select {
+	case p := <-done:
+		return true, p
+	case <-time.After(d):
+		return false, nil
+	}
+}
+
+// parseCase: accept/reject of the parser alone, the tree in canonical
+// form and the parser's own String() rendering.
+func parseCase(c kv, w *bufio.Writer) {
+	src := unhex(c["script"])
+	var line string
+	fin, pan := withTimeout(10*time.Second, func() {
+		p := parser.New(lexer.New(src))
+		prog, err := p.Parse()
+		if err != nil {
+			line = "parse=reject"
+			return
+		}
+		var b strings.Builder
+		dumpNode(prog, &b)
+		line = "parse=ok\tast=" + b.String() + "\tpstr=" + hx(prog.String())
+	})
+	if !fin {
+		line = "parse=TIMEOUT"
+	} else if pan != nil {
+		line = "parse=PANIC"
+	}
+	fmt.Fprintf(w, "id=%s\t%s\n", c["id"], line)
 }
